@@ -46,6 +46,18 @@ CHECKS = {
         technique="Coq proof (parametric in the validator functions, induction over put lists) + "
                   "differential correspondence evaluated by vm_compute",
         design_ref="DESIGN.md section 6/C17"),
+    'C14': dict(
+        text="Theorems (Props/C14.v): send delivers iff the life-cycle phase is initialising/running "
+             "(is_ready), otherwise EdzedInvalidState and nothing delivered; for EVERY default and "
+             "caller-supplied source string the delivered 'source' starts with '_ext_'; the positional "
+             "value becomes 'value', all other items arrive unchanged; no user-given block name and "
+             "no automatic name handed out starts with '_ext_'; link theorems agree->monitor. Tie: "
+             "sends in 7 life-cycle phases of a real circuit on a virtual clock (incl. inside async "
+             "init, between shutdown()/abort() and the task's reaction, inside a slow stop_async), "
+             "data recorded at the destination's event() entry, names of dynamically created classes.",
+        technique="Coq proof (string-prefix lemmas, case analysis over phases) + differential "
+                  "correspondence evaluated by vm_compute",
+        design_ref="DESIGN.md section 6/C14"),
 }
 
 NOT_YET = "check not built yet in this round (planned: Coq model + theorems + correspondence, see DESIGN.md section 6)"
